@@ -1107,6 +1107,15 @@ pub fn run(env: &Env) -> i32 {
             None => rep.note("loader ABI part: no evidence file found (vh-loader C08 did not finish)"),
         }
     }
+    if let Ok(p) = std::env::var("VH_FUZZ_SUMMARY") {
+        if let Ok(t) = std::fs::read_to_string(&p) {
+            let lines: Vec<String> = t.lines().filter(|l| l.starts_with("FUZZ ") || l.starts_with("VIOLATION") || l.starts_with("INCONCLUSIVE")).map(String::from).collect();
+            if !lines.is_empty() {
+                rep.note(format!("libFuzzer targets (tools/fuzz.sh): {}", lines.join("; ")));
+                rep.extra.insert("libfuzzer".into(), json!(lines));
+            }
+        }
+    }
     rep.finish()
 }
 
